@@ -404,6 +404,95 @@ static void history(int steps, int containers_only) {
 }
 
 
+/* A-direction: execute a history generated by TLC from the specification (spec/Sim_Items.tla); ids in the script are the
+ * specification's pool ids; M binds them to real items whenever the client receives a reference */
+static void script_history(char* line) {
+  long live0 = va.live;
+  cbor_item_t* M[64] = {0};
+  memset(H, 0, sizeof H);
+  ndense = 0;
+  fprintf(vh_out, "{\"e\":\"Reset\"}\n");
+  for (char* op = strtok(line, ";"); op; op = strtok(NULL, ";")) {
+    char name[32], sub[16] = "";
+    long a0 = 0, a1 = 0, a2 = 0, idx = 0, ret = 0, def = 1, cap = 0;
+    if (sscanf(op, " %31s %ld %ld %ld %ld %ld %ld %ld %15s", name, &a0, &a1, &a2, &idx, &ret, &def, &cap, sub) < 8) continue;
+    if (a0 < 0 || a0 > 63 || a1 < 0 || a1 > 63 || a2 < 0 || a2 > 63 || ret < 0 || ret > 63) continue;
+    cbor_item_t *A = M[a0], *B = M[a1], *C = M[a2];
+    op_begin();
+    if (!strncmp(name, "New", 3)) {
+      cbor_item_t* it = NULL;
+      if (!strcmp(name, "NewLeaf")) it = !strcmp(sub, "int") ? cbor_build_uint8(7) : !strcmp(sub, "bstr") ? cbor_build_bytestring((const unsigned char*)"ab", 2) : cbor_build_string("x");
+      else if (!strcmp(name, "NewArr")) it = def ? cbor_new_definite_array((size_t)cap) : cbor_new_indefinite_array();
+      else if (!strcmp(name, "NewMap")) it = def ? cbor_new_definite_map((size_t)cap) : cbor_new_indefinite_map();
+      else if (!strcmp(name, "NewTag")) it = cbor_new_tag(42);
+      else it = !strcmp(sub, "bstr") ? cbor_new_indefinite_bytestring() : cbor_new_indefinite_string();
+      add_ref(it);
+      M[ret] = it;
+      op_end(name, id_of(it), 0, 0, 0, id_of(it));
+    } else if (!strcmp(name, "Push")) {
+      long ia = id_of(A), ix = id_of(B);
+      bool ok = cbor_array_push(A, B);
+      op_end(name, ia, ix, 0, 0, ok);
+    } else if (!strcmp(name, "MovePush")) {
+      long ia = id_of(A), ix = id_of(B);
+      H[slot_of(B)].crefs--;
+      bool ok = cbor_array_push(A, cbor_move(B));
+      op_end(name, ia, ix, 0, 0, ok);
+    } else if (!strcmp(name, "Set") || !strcmp(name, "Replace")) {
+      long ia = id_of(A), ix = id_of(B);
+      bool ok = name[0] == 'S' ? cbor_array_set(A, (size_t)idx, B) : cbor_array_replace(A, (size_t)idx, B);
+      op_end(name, ia, ix, 0, idx, ok);
+    } else if (!strcmp(name, "Get")) {
+      long ia = id_of(A);
+      cbor_item_t* r = cbor_array_get(A, (size_t)idx);
+      if (r) { add_ref(r); M[ret] = r; }
+      op_end(name, ia, 0, 0, idx, id_of(r));
+    } else if (!strcmp(name, "MapAdd")) {
+      long im = id_of(A), ik = id_of(B), iv = id_of(C);
+      bool ok = cbor_map_add(A, (struct cbor_pair){.key = B, .value = C});
+      op_end(name, im, ik, iv, 0, ok);
+    } else if (!strcmp(name, "AddChunk")) {
+      long is = id_of(A), ic = id_of(B);
+      bool ok = cbor_isa_bytestring(A) ? cbor_bytestring_add_chunk(A, B) : cbor_string_add_chunk(A, B);
+      op_end(name, is, ic, 0, 0, ok);
+    } else if (!strcmp(name, "TagSet")) {
+      long it = id_of(A), ix = id_of(B);
+      cbor_item_t* old = A->metadata.tag_metadata.tagged_item;
+      cbor_tag_set_item(A, B);
+      if (old) { add_ref(old); M[a2] = old; }
+      op_end(name, it, ix, 0, 0, 1);
+    } else if (!strcmp(name, "TagGet")) {
+      long it = id_of(A);
+      cbor_item_t* r = cbor_tag_item(A);
+      add_ref(r);
+      M[ret] = r;
+      op_end(name, it, 0, 0, 0, id_of(r));
+    } else if (!strcmp(name, "BuildTag")) {
+      long ix = id_of(A);
+      cbor_item_t* r = cbor_build_tag(42, A);
+      add_ref(r);
+      M[ret] = r;
+      op_end(name, id_of(r), ix, 0, 0, id_of(r));
+    } else if (!strcmp(name, "Incref")) {
+      cbor_item_t* r = cbor_incref(A);
+      H[slot_of(A)].crefs++;
+      op_end(name, id_of(r), 0, 0, 0, id_of(r));
+    } else if (!strcmp(name, "Decref")) {
+      drop(slot_of(A));
+    } else if (!strcmp(name, "Copy")) {
+      long ix = id_of(A);
+      cbor_item_t* r = cbor_copy(A);
+      add_ref(r);
+      M[ret] = r;
+      op_end(name, ix, 0, 0, 0, id_of(r));
+    }
+  }
+  for (int i = 0; i < NH; i++) while (H[i].crefs > 0) drop(i);
+  fprintf(vh_out, "{\"e\":\"end\",\"live\":%ld,\"foreign\":%ld}\n", va.live - live0, va.foreign_free + va.foreign_realloc);
+  nhist++;
+}
+
+
 /* C12 growth clause: n insertions into an indefinite container; capacity observed after every insertion */
 static void grow_case(int kind, long n) {
   long live0 = va.live;
@@ -459,6 +548,12 @@ int main(int argc, char** argv) {
       grow_case(kind, 1 + (long)vh_randn(n));
       for (long m = 0; m <= 17; m++) grow_case(kind, m);
     }
+  } else if (!strcmp(argv[1], "script")) {
+    FILE* f = fopen(argv[2], "r");
+    if (!f) return 2;
+    static char line[1 << 16];
+    while (fgets(line, sizeof line, f)) script_history(line);
+    fclose(f);
   } else {
     long hs = atol(argv[2]);
     int steps = atoi(argv[3]);
